@@ -36,7 +36,7 @@ package gtreap
 //@   locks
 //@   requires w != nil && w.s != nil && w.s.t != nil && w.s.mo != nil && !held(w.s.m) && rheld(w.s.m) == 0
 //@   requires implies(typeis(batch, *store.EmulatedBatch), batch.(*store.EmulatedBatch) != nil && batch.(*store.EmulatedBatch).Merger != nil && forall(k, 0, len(batch.(*store.EmulatedBatch).Ops), batch.(*store.EmulatedBatch).Ops[k] != nil))
-//@   modifies w.s.t
+//@   modifies w.s.t, lock(w.s.m)
 //@   ensures !held(w.s.m)
 //@   ensures implies(result != nil, w.s.t == old(w.s.t))
 //@   ensures w.s.t != nil
@@ -49,4 +49,5 @@ package gtreap
 //@   mode int
 //@   locks
 //@   requires s != nil && !held(s.m) && rheld(s.m) == 0
+//@   modifies lock(s.m)
 //@   ensures !held(s.m) && result1 == nil && result0 != nil
